@@ -205,7 +205,85 @@ func c12Battery(c docCase) (c12Stats, error) {
 	if err := c12FindElement(pj, model, &st); err != nil {
 		return st, fmt.Errorf("%v\ndocument: %q", err, clip(c.In))
 	}
+	if err := c12HeldResults(pj, model); err != nil {
+		return st, fmt.Errorf("%v\ndocument: %q", err, clip(c.In))
+	}
 	return st, nil
+}
+
+// c12HeldResults: what Interface/Map/Parse handed out are Go values (maps with string keys, strings, Element names).
+// They are the values plain traversal gave at that moment and, being Go strings, cannot change afterwards - also not
+// when the ParsedJson they came from is recycled as the reuse argument of a later Parse or edited in place.
+func c12HeldResults(pj *simdjson.ParsedJson, model *rj.Node) error {
+	it := pj.Iter()
+	held, err := it.Interface()
+	if err != nil {
+		return fmt.Errorf("Interface(): %v", err)
+	}
+	want := canonIface(nil, held)
+	var names []string   // as handed out
+	var namesCp [][]byte // private copies taken at once
+	var mp map[string]interface{}
+	if model.K == rj.Obj {
+		ri := pj.Iter()
+		ri.Advance()
+		_, r, err := ri.Root(nil)
+		if err != nil {
+			return fmt.Errorf("Root(): %v", err)
+		}
+		o, err := r.Object(nil)
+		if err != nil {
+			return fmt.Errorf("Object(): %v", err)
+		}
+		o2 := *o
+		els, err := o.Parse(nil)
+		if err != nil {
+			return fmt.Errorf("Object.Parse: %v", err)
+		}
+		for _, e := range els.Elements {
+			names = append(names, e.Name)
+			namesCp = append(namesCp, []byte(e.Name))
+		}
+		for k := range els.Index {
+			names = append(names, k)
+			namesCp = append(namesCp, []byte(k))
+		}
+		if mp, err = o2.Map(nil); err != nil {
+			return fmt.Errorf("Object.Map: %v", err)
+		}
+	}
+	wantMap := canonIface(nil, mp)
+	// recycle the object: first edit it in place (appends to its string buffer), then parse something else into it
+	ei := pj.Iter()
+	for n := 0; n < 200; n++ {
+		t := ei.AdvanceInto()
+		if t == simdjson.TagEnd {
+			break
+		}
+		if t == simdjson.TagString {
+			cp := ei
+			if cp.PeekNextTag() != simdjson.TagEnd { // a value or key; replacing either is fine for this purpose
+				_ = cp.SetString("REPLACED-IN-PLACE")
+			}
+			break
+		}
+	}
+	other := []byte(`{"ZZZZZZZZZZZZZZZZ":"YYYYYYYYYYYYYYYYYYYYYYYYYYYYYYYY","XXXXXXXXXXXXXXXXXXXXXXXX\n":["WWWWWWWWWWWWWWWWWWWWWWWWWWWWWWWWWWWWWWWWWWWWWWWWWWWWWWWWWWWWWWWWWWWWWWWWWWWWWWWW\t",1,2,3]}`)
+	if _, err := simdjson.Parse(other, pj); err != nil {
+		return bugf("recycling parse failed: %v", err)
+	}
+	if got := canonIface(nil, held); !bytes.Equal(got, want) {
+		return fmt.Errorf("the value returned by Interface() changed after its ParsedJson was recycled by a later Parse: %s", diffCanon(want, got))
+	}
+	if got := canonIface(nil, mp); !bytes.Equal(got, wantMap) {
+		return fmt.Errorf("the map returned by Object.Map changed after its ParsedJson was recycled by a later Parse: %s", diffCanon(wantMap, got))
+	}
+	for i := range names {
+		if names[i] != string(namesCp[i]) {
+			return fmt.Errorf("member name %q handed out by Object.Parse reads %q after its ParsedJson was recycled by a later Parse", namesCp[i], names[i])
+		}
+	}
+	return nil
 }
 
 func firstMember(n *rj.Node, key string) (int, *rj.Node) {
